@@ -3,6 +3,9 @@ package main
 func init() {
 	mk := func(cfg string, shards int, ops string, nfaults string, budget float64) Scenario {
 		p := "cfg=" + cfg + ",ops=" + ops + ",depth=" + ops
+		if cfg == "loading-expiry" {
+			p = "cfg=" + cfg + ",ops=" + ops + ",depth=" + string(rune(ops[0]+1)) // calls + one clock advance
+		}
 		if nfaults != "" {
 			p += ",nfaults=" + nfaults
 		}
@@ -18,12 +21,12 @@ func init() {
 		Quick: []Scenario{
 			mk("simple-nottl", 8, "6", "", 60), mk("simple-ttl", 8, "6", "", 60), mk("simple-m2", 8, "6", "", 60),
 			mk("loading-nottl", 8, "6", "", 60), mk("loading-ttl", 8, "6", "", 60), mk("loading-m2", 8, "6", "", 60),
-			mk("fault-simple", 16, "5", "4", 60), mk("fault-loading", 16, "5", "4", 60),
+			mk("fault-simple", 16, "5", "4", 60), mk("fault-loading", 16, "5", "4", 60), mk("loading-expiry", 8, "5", "", 60),
 		},
 		Thorough: []Scenario{
 			mk("simple-nottl", 16, "8", "", 100), mk("simple-ttl", 16, "8", "", 100), mk("simple-m2", 16, "8", "", 100),
 			mk("loading-nottl", 16, "8", "", 100), mk("loading-ttl", 16, "8", "", 100), mk("loading-m2", 16, "8", "", 100),
-			mk("fault-simple", 16, "6", "5", 100), mk("fault-loading", 16, "6", "5", 100),
+			mk("fault-simple", 16, "6", "5", 100), mk("fault-loading", 16, "6", "5", 100), mk("loading-expiry", 16, "7", "", 100),
 		},
 	})
 }
